@@ -23,6 +23,28 @@ func init() {
 
 // genMergeInventory builds n containers with time-ordered logs, line ids c<i>#<j> (or identical lines across replicas),
 // ties within and across containers and some empty logs.
+// genMergeInventoryT: genMergeInventory, and in one inventory of four some containers share what looks like
+// an identity without being one (round 18): two nameless containers, two containers carrying the same user
+// label container=..., a container whose user label container= is the name of another. A container is
+// identified by its id; its records are told apart by container_id, so nothing else changes for the checkers.
+func genMergeInventoryT(r *vk.RNG, n int, maxRecs int) []CSpec {
+	inv := genMergeInventory(r, n, maxRecs)
+	if n < 2 || !r.Chance(1, 4) {
+		return inv
+	}
+	i := r.Intn(n)
+	j := (i + 1 + r.Intn(n-1)) % n
+	switch r.Intn(3) {
+	case 0:
+		inv[i].Name, inv[j].Name = "", ""
+	case 1:
+		inv[i].Labels["container"], inv[j].Labels["container"] = "same", "same"
+	default:
+		inv[j].Labels["container"] = strings.TrimPrefix(inv[i].Name, "/")
+	}
+	return inv
+}
+
 func genMergeInventory(r *vk.RNG, n int, maxRecs int) []CSpec {
 	inv := make([]CSpec, n)
 	base := int64(1700000000) * 1e9
@@ -270,7 +292,7 @@ func runC04(r *vk.Run) {
 	// all completion orders, N = 0..5
 	r.Phase("orders", r.N(16, 2500), func(c *vk.Case) {
 		for n := 0; n <= 5; n++ {
-			inv := genMergeInventory(c.Rng, n, 6)
+			inv := genMergeInventoryT(c.Rng, n, 6)
 			ref := ""
 			ties := 0
 			tsSeen := map[int64]bool{}
@@ -301,7 +323,7 @@ func runC04(r *vk.Run) {
 
 	r.Phase("sampled", r.N(6, 1200), func(c *vk.Case) {
 		n := c.Rng.Range(6, 8)
-		inv := genMergeInventory(c.Rng, n, 8)
+		inv := genMergeInventoryT(c.Rng, n, 8)
 		ref := ""
 		for k := 0; k < 24; k++ {
 			if !runOrder(c, inv, c.Rng.Perm(n), &ref) {
@@ -312,7 +334,7 @@ func runC04(r *vk.Run) {
 
 	r.Phase("stress", r.N(20, 3000), func(c *vk.Case) {
 		// more containers than CPUs, and not a round number of them (work split per CPU has a remainder)
-		inv := genMergeInventory(c.Rng, vk.Pick(c.Rng, []int{17, 23, 31, 33, 47, 64, 65, 70}), 12)
+		inv := genMergeInventoryT(c.Rng, vk.Pick(c.Rng, []int{17, 23, 31, 33, 47, 64, 65, 70}), 12)
 		ref := ""
 		for k := 0; k < 3; k++ {
 			if !runOrder(c, inv, nil, &ref) {
@@ -330,7 +352,7 @@ func runC04(r *vk.Run) {
 	// and a record inside the window follows one that lies past its end
 	r.Phase("window", r.N(300, 30000), func(c *vk.Case) {
 		rng := c.Rng
-		inv := genMergeInventory(rng, rng.Range(1, 4), 10)
+		inv := genMergeInventoryT(rng, rng.Range(1, 4), 10)
 		base := int64(1700000000) * 1e9
 		start := base - 1e9 + int64(rng.Intn(3))*5e8
 		end := base + int64(rng.Range(1, 12))*5e8 + vk.Pick(rng, []int64{0, 1, 250e6, 500e6, 999999999, 123456789})
@@ -412,7 +434,7 @@ func runC04(r *vk.Run) {
 	r.Phase("brokenfirst", r.N(60, 6000), func(c *vk.Case) {
 		rng := c.Rng
 		n := rng.Range(2, 5)
-		inv := genMergeInventory(rng, n, 5)
+		inv := genMergeInventoryT(rng, n, 5)
 		bad := rng.Intn(n)
 		for len(inv[bad].Frames) == 0 {
 			inv[bad].Frames = []Frame{{Type: 1, TS: 1700000000e9, Body: "only"}}
@@ -456,7 +478,7 @@ func phaseReuse(r *vk.Run) {
 	// Querier served before or serves at the same time
 	r.Phase("reuse", r.N(300, 30000), func(c *vk.Case) {
 		rng := c.Rng
-		inv := genMergeInventory(rng, rng.Range(3, 8), 6)
+		inv := genMergeInventoryT(rng, rng.Range(3, 8), 6)
 		fd := newFakeDocker(inv)
 		q := dockerQuerier(fd)
 		nsel := rng.Range(2, 4)
